@@ -2283,6 +2283,19 @@ class Engine:
     for k in c.loops:
       if k >= len(self.cur_loops):
         return dict(status="missing", reason=f"{c.target}: loop ordinal {k} does not exist")
+    # loops declared `independent` (per-artifact loops, C17): no variable may carry information from one iteration to
+    # a later one except the declared write-only accumulators
+    if self.prop in (None, "C17") and not getattr(self, "value_pass", False):
+      for k, lc in c.loops.items():
+        if lc.get("independent"):
+          ok = set(lc.get("carried_ok", ()))
+          for name, ln in sorted(source.loop_carried(self.cur_loops[k]).items()):
+            if name not in ok:
+              self.emit(State([]), "frame", f"{c.qual}/loop{k}/independent:no state carried between iterations "
+                        f"(variable {name} is read before it is set in an iteration and written in the loop)", False,
+                        clause=f"iterations of loop {k} of {c.qual} are independent", line=ln, props={"C17"})
+          self.emit(State([]), "frame", f"{c.qual}/loop{k}/independent:checked", True,
+                    clause=f"iterations of loop {k} of {c.qual} are independent", props={"C17"})
     # hook sites must exist: a hook whose site vanished would silently drop its obligations
     assigned_here = {t.id for nd in ast.walk(fn) if isinstance(nd, ast.Assign) for t in nd.targets if isinstance(t, ast.Name)}
     for name in getattr(c, "on_assign", {}):
